@@ -28,6 +28,7 @@ import NemoVerif.Lemmas.ErrLeafVM
 import NemoVerif.Lemmas.ErrRestartVM
 import NemoVerif.Lemmas.ErrExtVM
 import NemoVerif.Lemmas.SlideStepVM
+import NemoVerif.Lemmas.ErrHandleVM
 
 namespace NemoVerif.C10
 open NemoVerif.SlideGraph NemoVerif.ErrContain NemoVerif.RoundMachine
@@ -420,9 +421,10 @@ open NemoVerif NemoVerif.CoreIndex NemoVerif.CoreVM
   the function, with the state at the moment of the raise), `.error .outOfFuel s'` (says nothing about Python, kept apart),
   `.error (.unsupported _) s'` / `.error (.guardFailed _) s'` (the model stops).  `outState r` = the state of a result. -/
 
-/-- `try: … except Exception` of the model (`attemptPy`, used around `slide` + fork recursion, around the second half of the
-    try block of `_advance_head_front`, and around `_compute_event_matching_score` in the candidate scan): whatever the
-    guarded computation does, no Python-level exception leaves it — for every computation and every state. -/
+/-- `try: … except Exception` of the model (`attemptPy`, used around `head.position += 1` + `slide` + fork recursion, around the
+    second half of the try block of `_advance_head_front`, around `_compute_event_matching_score` in the candidate scan, and
+    around the work per matched head in `_handle_event_matching`): whatever the guarded computation does, no Python-level
+    exception leaves it — for every computation and every state. -/
 theorem vm_try_never_propagates {α : Type} (x : M α) (s s' : VM) (c m : String) :
     attemptPy x s ≠ .error (.py c m) s' := attemptPy_never_py x s s' c m
 
@@ -432,20 +434,23 @@ theorem vm_try_catches {α : Type} (x : M α) (s s' : VM) (c m : String) (h : x 
 
 
 /-- **the `except` branch of `_advance_head_front`, as an equation.**  One ACTIVE head `k` of a listening instance is advanced;
-    after `head.position += 1` (and WAITING → STARTING) the first part of the try block — `slide` plus the recursion into freshly
-    forked heads — raises `cls: msg` in state `s2`, the head still standing on an element (`hpos`).  Then the whole call IS the
-    handler run from `s2`: push `ColangError(type=cls, error=msg)`, (an activated flow that was still STARTING is marked so that
-    it is not restarted), `_abort_flow(deactivate_flow=False)`, nothing handed back. -/
+    after WAITING → STARTING (`hpre`: the only statements in front of the try block) the first part of the try block —
+    `head.position += 1` (which fires the head-changed callback: the event name of the match statement the head arrives at is
+    evaluated), `slide`, the recursion into freshly forked heads — raises `cls: msg` in state `s2`, the head still standing on an
+    element (`hpos`).  Then the whole call IS the handler run from `s2`: push `ColangError(type=cls, error=msg)`, (an activated
+    flow that was still STARTING is marked so that it is not restarted), `_abort_flow(deactivate_flow=False)`, nothing handed back.
+    [Synced with fixes/C10-head-advance-inside-try.diff: `head.position += 1` used to be part of `hpre`, i.e. outside the region
+    the theorem covers — the former finding `error-raised-by-head-advance-outside-try`.] -/
 theorem vm_except_branch (fuel : Nat) (k : Key) (s s1 s2 : VM) (i : Inst) (hd hd2 : Head) (cfg : FlowCfg) (c m : String)
     (starting : Bool)
     (hi : findInst s.ixs.ix k.1 = some i) (hl : i.status.listening = true)
     (hcfg : cfgOfInst k.1 s = .ok cfg s)
     (hhd : i.findHead k.2 = some hd) (hact : hd.status = .active)
     (hpre : (do
-        setHeadPos k (hd.pos + 1)
         if (← getInst k.1).status = FlowStatus.waiting then setFlowStatus k.1 FlowStatus.starting
         pure (decide ((← getInst k.1).status = FlowStatus.starting))) s = .ok starting s1)
     (hraise : (do
+        setHeadPos k (hd.pos + 1)
         let newHeads ← slide fuel k.1 k.2
         if newHeads.isEmpty then pure [] else advanceHeadFront fuel newHeads) s1 = .error (.py c m) s2)
     (hhd2 : (findInst s2.ixs.ix k.1).bind (·.findHead k.2) = some hd2) (hpos : hd2.pos < cfg.elements.size) :
@@ -466,10 +471,10 @@ theorem vm_error_contained (fuel : Nat) (k : Key) (s s1 s2 : VM) (i : Inst) (hd 
     (hcfg : cfgOfInst k.1 s = .ok cfg s)
     (hhd : i.findHead k.2 = some hd) (hact : hd.status = .active)
     (hpre : (do
-        setHeadPos k (hd.pos + 1)
         if (← getInst k.1).status = FlowStatus.waiting then setFlowStatus k.1 FlowStatus.starting
         pure (decide ((← getInst k.1).status = FlowStatus.starting))) s = .ok starting s1)
     (hraise : (do
+        setHeadPos k (hd.pos + 1)
         let newHeads ← slide (fuel + 1) k.1 k.2
         if newHeads.isEmpty then pure [] else advanceHeadFront (fuel + 1) newHeads) s1 = .error (.py c m) s2)
     (hhd2 : (findInst s2.ixs.ix k.1).bind (·.findHead k.2) = some hd2) (hpos : hd2.pos < cfg.elements.size) :
@@ -525,10 +530,10 @@ theorem vm_leaf_error_never_propagates (fuel : Nat) (k : Key) (s s1 s2 : VM) (i 
     (hcfg : cfgOfInst k.1 s = .ok cfg s)
     (hhd : i.findHead k.2 = some hd) (hact : hd.status = .active)
     (hpre : (do
-        setHeadPos k (hd.pos + 1)
         if (← getInst k.1).status = FlowStatus.waiting then setFlowStatus k.1 FlowStatus.starting
         pure (decide ((← getInst k.1).status = FlowStatus.starting))) s = .ok starting s1)
     (hraise : (do
+        setHeadPos k (hd.pos + 1)
         let newHeads ← slide (fuel + 1) k.1 k.2
         if newHeads.isEmpty then pure [] else advanceHeadFront (fuel + 1) newHeads) s1 = .error (.py c m) s2)
     (hhd2 : (findInst s2.ixs.ix k.1).bind (·.findHead k.2) = some hd2) (hpos : hd2.pos < cfg.elements.size)
@@ -547,10 +552,10 @@ theorem vm_restart_guard (fuel : Nat) (k : Key) (s s1 s2 : VM) (i : Inst) (hd hd
     (hcfg : cfgOfInst k.1 s = .ok cfg s)
     (hhd : i.findHead k.2 = some hd) (hact : hd.status = .active)
     (hpre : (do
-        setHeadPos k (hd.pos + 1)
         if (← getInst k.1).status = FlowStatus.waiting then setFlowStatus k.1 FlowStatus.starting
         pure (decide ((← getInst k.1).status = FlowStatus.starting))) s = .ok true s1)
     (hraise : (do
+        setHeadPos k (hd.pos + 1)
         let newHeads ← slide (fuel + 1) k.1 k.2
         if newHeads.isEmpty then pure [] else advanceHeadFront (fuel + 1) newHeads) s1 = .error (.py c m) s2)
     (hhd2 : (findInst s2.ixs.ix k.1).bind (·.findHead k.2) = some hd2) (hpos : hd2.pos < cfg.elements.size)
@@ -638,10 +643,10 @@ theorem vm_faulty_flow_fails_alone (G : FUid → Prop) (fuel : Nat) (k : Key) (s
     (hcfg : cfgOfInst k.1 s = .ok cfg s)
     (hhd : i.findHead k.2 = some hd) (hact : hd.status = .active)
     (hpre : (do
-        setHeadPos k (hd.pos + 1)
         if (← getInst k.1).status = FlowStatus.waiting then setFlowStatus k.1 FlowStatus.starting
         pure (decide ((← getInst k.1).status = FlowStatus.starting))) s = .ok starting s1)
     (hraise : (do
+        setHeadPos k (hd.pos + 1)
         let newHeads ← slide (fuel + 1) k.1 k.2
         if newHeads.isEmpty then pure [] else advanceHeadFront (fuel + 1) newHeads) s1 = .error (.py c m) s2)
     (hhd2 : (findInst s2.ixs.ix k.1).bind (·.findHead k.2) = some hd2) (hpos : hd2.pos < cfg.elements.size)
@@ -717,10 +722,10 @@ example : ∃ (i : Inst) (hd hd2 : Head) (s1 s2 : VM) (starting : Bool) (c m : S
     findInst demoVM.ixs.ix "f" = some i ∧ i.status.listening = true ∧ cfgOfInst "f" demoVM = .ok demoCfg demoVM ∧
     i.findHead "h" = some hd ∧ hd.status = .active ∧
     (do
-        setHeadPos ("f", "h") (hd.pos + 1)
         if (← getInst "f").status = FlowStatus.waiting then setFlowStatus "f" FlowStatus.starting
         pure (decide ((← getInst "f").status = FlowStatus.starting))) demoVM = .ok starting s1 ∧
     (do
+        setHeadPos ("f", "h") (hd.pos + 1)
         let newHeads ← slide 3 "f" "h"
         if newHeads.isEmpty then pure [] else advanceHeadFront 3 newHeads) s1 = .error (.py c m) s2 ∧
     (findInst s2.ixs.ix "f").bind (·.findHead "h") = some hd2 ∧ hd2.pos < demoCfg.elements.size :=
@@ -811,10 +816,10 @@ def demoVM3 : VM :=
 /-- non-vacuity of `vm_leaf_error_never_propagates`: the leaf hypothesis holds at the raise state of the concrete run … -/
 example : ∃ (s1 s2 : VM) (c m : String),
     (do
-        setHeadPos ("f", "h") 1
         if (← getInst "f").status = FlowStatus.waiting then setFlowStatus "f" FlowStatus.starting
         pure (decide ((← getInst "f").status = FlowStatus.starting))) demoVM3 = .ok true s1 ∧
     (do
+        setHeadPos ("f", "h") 1
         let newHeads ← slide 3 "f" "h"
         if newHeads.isEmpty then pure [] else advanceHeadFront 3 newHeads) s1 = .error (.py c m) s2 ∧
     Leafish1 "f" (some "m") 0 s2 :=
@@ -825,25 +830,124 @@ example : ∃ s', advanceHeadFront 4 [("f", "h")] demoVM3 = .ok [] s' ∧
     (OMap.lookup "m" s'.r.fx).map (·.childFlowUids) = some [] ∧ (findInst s'.ixs.ix "f").map (·.status) = some .stopped :=
   ⟨_, rfl, rfl, rfl⟩
 
-/-! ### the three open findings of phase 4, as theorems about the AS-IS model (CoreVM mirrors the pinned code) -/
+/-! ### the three findings of phase 4, repaired (fixes/C10-head-advance-inside-try.diff, fixes/C10-startflow-requires-flow-id.diff,
+     fixes/C10-handle-match-error-contained.diff): CoreVM mirrors the repaired code, the former counterexamples
+     (`advance_position_error_escapes_as_is`, `startflow_without_flow_id_escapes_as_is`, `start_flow_error_escapes_as_is`) are now
+     instances of the containment theorems -/
 
 /-- `<noop>; match UtteranceBotAction(..).Nope()`: the event name of the match statement cannot be computed -/
 def badMatchSpec : Spec := Spec.mk (some "UtteranceBotAction") .action [] none (some [Member.mk "Nope" []]) none
 def badMatchCfg : FlowCfg := { demoCfg with elements := #[.other, .matchOp badMatchSpec false] }
 def badMatchVM : VM := { demoVM with r := { demoVM.r with prog := ⟨[badMatchCfg]⟩ } }
 
-/-- FINDING `error-raised-by-head-advance-outside-try` (kernel-evaluated counterexample to "`_advance_head_front` never lets a
-    statement's error out"): `head.position += 1` is outside the try block and fires the head-changed callback, which computes the
-    event name of the match statement the head arrives at — the Python-level exception leaves `_advance_head_front`.
-    (`vm_except_branch` / `vm_error_contained` exclude exactly this region by the hypothesis `hpre … = .ok`.) -/
-theorem advance_position_error_escapes_as_is :
-    ∃ m s', advanceHeadFront 4 [("f", "h")] badMatchVM = .error (.py "ColangSyntaxError" m) s' := ⟨_, _, rfl⟩
+/-- REPAIRED `error-raised-by-head-advance-outside-try`: the hypotheses of `vm_except_branch` / `vm_error_contained` hold of the
+    former counterexample — the raise (`ColangSyntaxError`, "Invalid action event Nope!") comes out of `head.position += 1` itself
+    (the head-changed callback evaluates the event name of the match statement the head arrives at), which is now the first
+    statement of the raise block `hraise`; the head then stands on that match statement (`hpos`). -/
+theorem advance_position_error_in_try_block : ∃ (i : Inst) (hd hd2 : Head) (s1 s2 : VM) (starting : Bool) (m : String),
+    findInst badMatchVM.ixs.ix "f" = some i ∧ i.status.listening = true ∧ cfgOfInst "f" badMatchVM = .ok badMatchCfg badMatchVM ∧
+    i.findHead "h" = some hd ∧ hd.status = .active ∧
+    (do
+        if (← getInst "f").status = FlowStatus.waiting then setFlowStatus "f" FlowStatus.starting
+        pure (decide ((← getInst "f").status = FlowStatus.starting))) badMatchVM = .ok starting s1 ∧
+    setHeadPos ("f", "h") (hd.pos + 1) s1 = .error (.py "ColangSyntaxError" m) s2 ∧
+    (do
+        setHeadPos ("f", "h") (hd.pos + 1)
+        let newHeads ← slide 3 "f" "h"
+        if newHeads.isEmpty then pure [] else advanceHeadFront 3 newHeads) s1 = .error (.py "ColangSyntaxError" m) s2 ∧
+    (findInst s2.ixs.ix "f").bind (·.findHead "h") = some hd2 ∧ hd2.pos < badMatchCfg.elements.size :=
+  ⟨_, _, _, _, _, _, _, rfl, rfl, rfl, rfl, rfl, rfl, rfl, rfl, rfl, by decide⟩
 
-/-- FINDING `error-raised-while-processing-internal-event`: an internal `StartFlow` event without `flow_id` raises KeyError in
-    `_process_internal_events_without_default_matchers`, outside every try block -/
-theorem startflow_without_flow_id_escapes_as_is :
-    processInternalEvent 1 { ev := { kind := .internal, name := "StartFlow", args := [] } } demoVM =
-      .error (.py "KeyError" "flow_id") demoVM := rfl
+/-- … and the conclusion, computed by the kernel: no exception leaves `_advance_head_front`; `ColangError` and `FlowFailed` are
+    queued, the flow is STOPPED (FAILED) -/
+theorem advance_position_error_contained : ∃ s', advanceHeadFront 4 [("f", "h")] badMatchVM = .ok [] s' ∧
+    s'.r.queue.map (·.ev.name) = ["ColangError", "FlowFailed"] ∧ (findInst s'.ixs.ix "f").map (·.status) = some .stopped :=
+  ⟨_, rfl, rfl, rfl⟩
+
+/-- **`send StartFlow(...)` without `flow_id` fails the SENDER, inside `slide`** (repaired
+    `error-raised-while-processing-internal-event`), for every state / flow / head: the head stands on a `send` element whose
+    event evaluates (in state `s1`) to an internal `StartFlow` event without `flow_id`; then the slide iteration raises
+    `ColangRuntimeError` in that very state — nothing is queued, the head does not move — and, `slide` being inside the try block
+    of `_advance_head_front`, `vm_except_branch` / `vm_error_contained` apply.  Hence a `StartFlow` event that a flow's `send`
+    puts into the queue always carries a `flow_id`: `_process_internal_events_without_default_matchers` (outside every try
+    block) cannot raise `KeyError: 'flow_id'` on behalf of a `send`. -/
+theorem startflow_without_flow_id_fails_sender (fuel : Nat) (f : FUid) (h : HUid) (s s1 : VM) (cfg : FlowCfg) (hd : Head)
+    (spec : Spec) (e : Match.Ev)
+    (hcfg : cfgOfInst f s = .ok cfg s) (hhd : getHead? (f, h) s = .ok (some hd) s)
+    (hlt : hd.pos < cfg.elements.size) (hlive : hd.status ≠ .inactive)
+    (hel : cfg.elements[hd.pos]! = .sendOp spec)
+    (hev : getEvent f spec false s = .ok e s1) (hname : e.name = "StartFlow") (hnoid : lookupArg "flow_id" e.args = none) :
+    slideStep fuel f h s = .error (.py "ColangRuntimeError" "Event 'StartFlow' needs a 'flow_id' parameter!") s1 :=
+  slideStep_startflow_requires_flow_id fuel f h s s1 cfg hd spec e hcfg hhd hlt hlive hel hev hname hnoid
+
+/-- `<noop>; send $e`, the context variable `$e` holding the event object of a `StartFlow` event without `flow_id` (the literal
+    form `send StartFlow()` takes the same branch of `slide`; its event name test runs through string functions the kernel does not
+    evaluate, so the witness uses the reference form) -/
+def startNoIdSpec : Spec := { name := none, specType := .reference, args := [], ref := none, members := none, varName := some "e" }
+def startNoIdCfg : FlowCfg := { demoCfg with elements := #[.other, .sendOp startNoIdSpec] }
+def startNoIdFx : List (FUid × InstX) := [("f", { flowId := "f", loopId := none, hierPos := "0", context := [("e", .ref "event" "e0")] })]
+def startNoIdRest : Rest := { demoVM.r with prog := ⟨[startNoIdCfg]⟩, fx := startNoIdFx, events := [("e0", { ev := { kind := .internal, name := "StartFlow", args := [] } })] }
+def startNoIdVM : VM := { demoVM with r := startNoIdRest }
+
+/-- the same state after `head.position += 1`: the head stands on the `send` -/
+def startNoIdVM1 : VM := { startNoIdVM with ixs := startNoIdVM.ixs.apply (.setPos "f" "h" 1 none) (by decide) }
+
+/-- decidable digests of results (the kernel evaluates them; `VM` itself has no decidable equality) -/
+def evDigest : EStateM.Result VMErr VM Match.Ev → Option (String × Bool)
+  | .ok e _ => some (e.name, (lookupArg "flow_id" e.args).isNone)
+  | .error _ _ => none
+def advDigest (f : FUid) : EStateM.Result VMErr VM (List Key) → Option (List Key × List String × Option FlowStatus)
+  | .ok r s => some (r, s.r.queue.map (·.ev.name), (findInst s.ixs.ix f).map (·.status))
+  | .error _ _ => none
+
+/-- non-vacuity of `startflow_without_flow_id_fails_sender`: its hypotheses hold of `startNoIdVM1` -/
+example : ∃ hd e s1, cfgOfInst "f" startNoIdVM1 = .ok startNoIdCfg startNoIdVM1 ∧
+    getHead? ("f", "h") startNoIdVM1 = .ok (some hd) startNoIdVM1 ∧ hd.pos < startNoIdCfg.elements.size ∧ hd.status ≠ .inactive ∧
+    startNoIdCfg.elements[hd.pos]! = .sendOp startNoIdSpec ∧ getEvent "f" startNoIdSpec false startNoIdVM1 = .ok e s1 ∧
+    e.name = "StartFlow" ∧ lookupArg "flow_id" e.args = none := by
+  have hd : evDigest (getEvent "f" startNoIdSpec false startNoIdVM1) = some ("StartFlow", true) := by decide +kernel
+  cases hg : getEvent "f" startNoIdSpec false startNoIdVM1 with
+  | error e s => rw [hg] at hd; cases hd
+  | ok e s1 =>
+    rw [hg] at hd
+    simp only [evDigest, Option.some.injEq, Prod.mk.injEq, Option.isNone_iff_eq_none] at hd
+    exact ⟨_, e, s1, rfl, rfl, by decide, by decide, rfl, rfl, hd.1, hd.2⟩
+
+/-- … and the computed run of `_advance_head_front` on `<noop>; send $e`: normal return, nothing handed back, the SENDER
+    is failed (`ColangError`, `FlowFailed` queued, status STOPPED) and no `StartFlow` event was queued -/
+theorem startflow_without_flow_id_contained :
+    advDigest "f" (advanceHeadFront 4 [("f", "h")] startNoIdVM) = some ([], ["ColangError", "FlowFailed"], some .stopped) := by
+  decide +kernel
+
+/-- **error containment in `_handle_event_matching`** (repaired `error-raised-while-handling-match`), for every event, every
+    list of matched heads and every state:
+    (1) no Python-level exception raised by the work per matched head (`_create_event_reference`, `_start_flow`, the scope
+        registration of `FlowStarted`) leaves the function — PROVENANCE of any Python-level exception that does: the look-up of
+        the flow state / configuration of a matched head in front of the try block (the instance of a matched head is gone);
+    (2) on normal return the heads handed back are among the matched heads (`run_to_completion` moves exactly these to
+        `heads_erroring`, whose flows it fails with `_abort_flow`: `vm_abort_postcondition`), if any head is handed back a
+        `ColangError` event is in the queue, nothing that was queued is lost, no instance disappeared;
+    (3) in EVERY outcome nothing that was queued is lost and no instance disappears (`Ext`). -/
+theorem vm_handle_match_error_contained (event : Event) (heads : List Key) (s : VM) :
+    (∀ c m s', handleEventMatching event heads s = .error (.py c m) s' →
+      ∃ k ∈ heads, ∃ s0, cfgOfInst k.1 s0 = .error (.py c m) s') ∧
+    (∀ errs s', handleEventMatching event heads s = .ok errs s' →
+      (∀ k ∈ errs, k ∈ heads) ∧ Ext s s' ∧ (errs ≠ [] → ∃ c m, colangErrorEvent c m ∈ s'.r.queue) ∧
+      (∀ e ∈ s.r.queue, e ∈ s'.r.queue)) ∧
+    Ext s (outState (handleEventMatching event heads s)) :=
+  ⟨fun c m s' h => handleEventMatching_py_provenance event heads s s' c m h,
+   fun errs s' h => handleEventMatching_ok event heads s s' errs h,
+   (Ext.handleEventMatching event heads).app s⟩
+
+/-- **the `except` branch of `_handle_event_matching`, as an equation** (one matched head): the work for head `k` raises `c: m`
+    in state `s2`; then the call returns normally, hands `k` back, and the final state is `s2` plus the queued
+    `ColangError(type=c, error=m)` (and the log entry) — nothing else -/
+theorem vm_handle_match_except_branch (event : Event) (k : Key) (cfg : FlowCfg) (hd : Head) (s s2 : VM) (c m : String)
+    (hcfg : cfgOfInst k.1 s = .ok cfg s) (hhd : getHead? k s = .ok (some hd) s)
+    (hraise : handleMatch event k cfg hd s = .error (.py c m) s2) :
+    handleEventMatching event [k] s = .ok [k] (handleErrState c m s2) ∧
+    colangErrorEvent c m ∈ (handleErrState c m s2).r.queue :=
+  ⟨handleEventMatching_error_path event k cfg hd s s2 c m hcfg hhd hraise, by simp [handleErrState]⟩
 
 /-- the class of the Python-level exception a result carries -/
 def pyClassOf {α : Type} : EStateM.Result VMErr VM α → Option String
@@ -866,10 +970,36 @@ def startP : Event :=
             args := [("flow_id", .str "helper_p"), ("flow_instance_uid", .str "p"), ("source_flow_instance_uid", .str "f"),
                      ("source_head_uid", .str "h"), ("$0", .int 1), ("$1", .int 2), ("$2", .int 3)] } }
 
-/-- FINDING `error-raised-while-handling-match`: `_start_flow` ("To many parameters provided in start of flow") is called from
-    `_handle_event_matching`, outside every try block -/
-theorem start_flow_error_escapes_as_is :
-    pyClassOf (handleEventMatching startP [("p", "hp")] paramVM) = some "ColangRuntimeError" := by decide +kernel
+theorem pyClassOf_some {α : Type} {r : EStateM.Result VMErr VM α} {c : String} (h : pyClassOf r = some c) :
+    ∃ m s, r = .error (.py c m) s := by
+  cases r with
+  | ok a s => cases h
+  | error e s =>
+    cases e with
+    | py c' m => simp only [pyClassOf, Option.some.injEq] at h; subst h; exact ⟨m, s, rfl⟩
+    | outOfFuel => cases h
+    | unsupported w => cases h
+    | guardFailed w => cases h
+
+/-- decidable digest of a result of `_handle_event_matching`: the heads handed back and the names of the queued events -/
+def hmDigest : EStateM.Result VMErr VM (List Key) → Option (List Key × List String)
+  | .ok r s => some (r, s.r.queue.map (·.ev.name))
+  | .error _ _ => none
+
+/-- non-vacuity of `vm_handle_match_except_branch` on the former counterexample: `_start_flow` raises `ColangRuntimeError` ("To many
+    parameters provided in start of flow") for the new instance `p` — now inside the try block … -/
+theorem start_flow_error_in_try_block : ∃ cfg hd m s2,
+    cfgOfInst "p" paramVM = .ok cfg paramVM ∧ getHead? ("p", "hp") paramVM = .ok (some hd) paramVM ∧
+    handleMatch startP ("p", "hp") cfg hd paramVM = .error (.py "ColangRuntimeError" m) s2 := by
+  have h : pyClassOf (handleMatch startP ("p", "hp") paramCfg (newHead "hp" none) paramVM) = some "ColangRuntimeError" := by
+    decide +kernel
+  obtain ⟨m, s2, hr⟩ := pyClassOf_some h
+  exact ⟨paramCfg, newHead "hp" none, m, s2, rfl, rfl, hr⟩
+
+/-- … and the conclusion, computed by the kernel: `_handle_event_matching` returns normally, hands the head of `p` back and has
+    queued the `ColangError` (REPAIRED `error-raised-while-handling-match`; formerly `start_flow_error_escapes_as_is`) -/
+theorem start_flow_error_contained :
+    hmDigest (handleEventMatching startP [("p", "hp")] paramVM) = some ([("p", "hp")], ["ColangError"]) := by decide +kernel
 
 
 /-- non-vacuity of `vm_faulty_flow_fails_alone`: besides the trace hypotheses (witnessed above for `demoVM3`) the family `{f}` is closed
@@ -892,10 +1022,10 @@ def demoVM4 : VM :=
 /-- non-vacuity of `vm_restart_guard` … -/
 example : ∃ (s1 s2 : VM) (c m : String) (x : InstX),
     (do
-        setHeadPos ("f", "h") 1
         if (← getInst "f").status = FlowStatus.waiting then setFlowStatus "f" FlowStatus.starting
         pure (decide ((← getInst "f").status = FlowStatus.starting))) demoVM4 = .ok true s1 ∧
     (do
+        setHeadPos ("f", "h") 1
         let newHeads ← slide 3 "f" "h"
         if newHeads.isEmpty then pure [] else advanceHeadFront 3 newHeads) s1 = .error (.py c m) s2 ∧
     OMap.lookup "f" s2.r.fx = some x ∧ x.activated > 0 :=
